@@ -35,7 +35,7 @@ class Alias:
             return self._memo[key]
         self._memo[key] = set()
         out = set()
-        for d in self.flow.defs(name, at):
+        for d in self._drop_zero_iteration(name, at, self.flow.defs(name, at)):
             if d == "param":
                 if name in self.params:
                     out.add(name)
@@ -55,6 +55,48 @@ class Alias:
                 pass
         self._memo[key] = out
         return out
+
+    def _drop_zero_iteration(self, name, at, ds):
+        """Correlated loops: `at` lies in a loop L2 over the same iterable expression as an earlier sibling loop L1 whose body
+        rebinds `name` unconditionally.  L2's body runs only if the iterable is non-empty, and then L1's body ran as well
+        (nothing in between rebinds the names of the iterable): the definitions made before L1 do not reach `at`."""
+        if len(ds) < 2:
+            return ds
+        st = at if isinstance(at, ast.stmt) else enclosing_stmt(at)
+        loops = []
+        n = parent(st)
+        while n is not None and not isinstance(n, (ast.FunctionDef, ast.AsyncFunctionDef)):
+            if isinstance(n, ast.For):
+                loops.append(n)
+            n = parent(n)
+        out = list(ds)
+        for l2 in loops:
+            par = parent(l2)
+            blk = None
+            for fld in ("body", "orelse", "finalbody"):
+                b = getattr(par, fld, None)
+                if isinstance(b, list) and any(x is l2 for x in b):
+                    blk = b
+            if blk is None:
+                continue
+            k2 = [i for i, x in enumerate(blk) if x is l2][0]
+            inames = {x.id for x in ast.walk(l2.iter) if isinstance(x, ast.Name)}
+            for k1 in range(k2):
+                l1 = blk[k1]
+                if not (isinstance(l1, ast.For) and not l1.orelse and norm(l1.iter) == norm(l2.iter)):
+                    continue
+                if any(isinstance(x, (ast.Continue, ast.Break, ast.Return, ast.Raise)) for b_ in l1.body for x in ast.walk(b_)):
+                    continue
+                rebinds = [b_ for b_ in l1.body if isinstance(b_, ast.Assign) and len(b_.targets) == 1 and isinstance(b_.targets[0], ast.Name) and b_.targets[0].id == name]
+                if not rebinds:
+                    continue
+                # the iterable denotes the same objects at L1 and at L2
+                stored = {x.id for s_ in blk[k1:k2 + 1] for x in ast.walk(s_) if isinstance(x, ast.Name) and isinstance(x.ctx, (ast.Store, ast.Del))}
+                if stored & inames:
+                    continue
+                inside = {id(x) for x in ast.walk(l1)}
+                out = [d for d in out if d != "param" and (id(d) in inside or self.flow._order(d) > self.flow._order(l1))]
+        return out or ds
 
     def expr_aliases(self, e, at):
         """parameters the value of e may share memory with"""
